@@ -284,19 +284,29 @@ def run(ctx):
 
         OWNED = re.compile(r"::to_string$|::to_owned$|From<&str>|::into$|String::from$")
 
-        def leaves(e, depth=0, out=None):
-            """The values the text can be, read through `?`, Ok(..)/Some(..), merges of paths and — in case normal form
-            (rules/optnorm.py) — the Option/Result combinators with the closures handed to them (`read(..).map(|_| buf)`,
-            `.and_then(..)`, `.map_err(..)`); the Err/None cases of a combinator are not texts (they leave through `?`)."""
+        def in_main(e):
+            """The call expression e is a call site of main itself (not one inside a closure read through its summary)."""
+            if not (e[0] == "call" and e[1] and isinstance(e[3], int) and 0 <= e[3] < len(m.blocks)):
+                return False
+            t_ = m.blocks[e[3]]["term"]
+            return t_["k"] in ("Call", "TailCall") and callee_path(t_) == e[1]["path"]
+
+        def leaves(e, depth=0, out=None, site=None):
+            """[(value, block of main at which it is produced)] — the values the text can be, read through `?`,
+            Ok(..)/Some(..), merges of paths and — in case normal form (rules/optnorm.py) — the Option/Result combinators
+            with the closures handed to them (`read(..).map(|_| buf)`, `.and_then(..)`, `.or_else(..)`); the Err/None
+            cases of a combinator are not texts (they leave through `?`).  A value produced inside such a closure is
+            produced where the combinator is called."""
             out = [] if out is None else out
             e = peel(e)
             if depth < 8 and e[0] in ("phi", "partial"):
                 for x in e[2]:
-                    leaves(x, depth + 1, out)
+                    leaves(x, depth + 1, out, site)
             elif depth < 8 and e[0] == "call" and e[1] and optnorm.M.match(e[1]["path"]):
                 cs = optnorm.cases_expr(facts, e)
+                here = e[3] if in_main(e) else site
                 if cs is None or (len(cs) == 1 and cs[0][0] == () and strip_refs(cs[0][1]) == e):
-                    out.append(("unread", e))
+                    out.append((("unread", e), here))
                 else:
                     for _conds, v in cs:
                         v = strip_refs(v)
@@ -304,11 +314,14 @@ def run(ctx):
                             continue
                         if v[0] in ("payload", "payload-err", "panic", "error", "default", "unit"):
                             # the payload of a source that is no combinator: the source itself is the leaf
-                            out.append(strip_refs(v[2]) if v[0] == "payload" and len(v) > 2 else ("unread", v))
+                            if v[0] == "payload" and len(v) > 2:
+                                leaves(v[2], depth + 1, out, here)
+                            else:
+                                out.append((("unread", v), here))
                             continue
-                        leaves(v, depth + 1, out)
+                        leaves(v, depth + 1, out, here)
             else:
-                out.append(e)
+                out.append((e, e[3] if in_main(e) else site))
             return out
         lvs = leaves(dt)
         # binary-wide: one read-to-end site, no other reader — wherever it sits; the clauses below are about main's paths,
@@ -320,7 +333,9 @@ def run(ctx):
         if len(all_reads) != 1:
             return
         if all_reads[0][0] is not m:
-            ctx.unread("K3.data-source", "the data text", "stdin is read in %s, not in main: the selection of the data source is read on the view with that function inlined" % all_reads[0][0].key, where=all_reads[0][0].where(all_reads[0][1]), fn=m.key)
+            # every clause about main's paths to the read is unread here (and decided — either way — on the view)
+            for cl in ("K3.data-source", "K3.reads-stdin", "K3.data-argument", "K3.default-dash", "K3.selector", "K3.stdin-only-on-dash", "K3.argument-verbatim"):
+                ctx.unread(cl, "the data text", "stdin is read in %s, not in main: the selection of the data source is read on the view with that function inlined" % all_reads[0][0].key, where=all_reads[0][0].where(all_reads[0][1]), fn=m.key)
             return
         stdin_reads = [(bi, t) for (b, bi, t) in all_reads]
         rbi, rt = stdin_reads[0]
@@ -335,16 +350,19 @@ def run(ctx):
                 if x[0] == "call" and x[1] and re.search(r"String::(new|with_capacity)$", x[1]["path"]):
                     buf_call = x[3]
         arg_leaves, stdin_leaves, other = [], [], []
-        unread = [lf for lf in lvs if lf[0] == "unread"]
+        unread = [lf for lf, pos in lvs if lf[0] == "unread"]
         if unread:
             ctx.unread("K3.data-source", "the data text", "the data text is produced by a form the source reader cannot read: %s" % show_expr(unread[0][1])[:160], where=m.where(apply_bi), fn=m.key)
             return
-        for lf in lvs:
+        for lf, pos in lvs:
             if lf[0] == "call" and lf[1] and OWNED.search(lf[1]["path"]) and lf[2] and arg_source(lf[2][0]):
-                arg_leaves.append((lf, arg_source(lf[2][0])))
-            elif lf[0] == "call" and lf[3] == rbi and len(rt["args"]) < 2:
+                if pos is None:
+                    ctx.unread("K3.argument-verbatim", "the data text", "where the data argument becomes the data text could not be located in main", where=m.where(apply_bi), fn=m.key)
+                    return
+                arg_leaves.append((lf, arg_source(lf[2][0]), pos))
+            elif lf[0] == "call" and in_main(lf) and lf[3] == rbi and len(rt["args"]) < 2:
                 stdin_leaves.append(lf)
-            elif lf[0] == "call" and lf[1] and re.search(r"String::(new|with_capacity)$", lf[1]["path"]) and lf[3] == buf_call:
+            elif lf[0] == "call" and lf[1] and re.search(r"String::(new|with_capacity)$", lf[1]["path"]) and in_main(lf) and lf[3] == buf_call:
                 stdin_leaves.append(lf)
             elif _residual(lf):
                 continue
@@ -357,8 +375,8 @@ def run(ctx):
             return
         dnames = {a[1][0] for a in arg_leaves}
         ctx.check(len(dnames) == 1 and argname not in dnames, "K3.data-argument", "the data argument is one command-line argument, not the rule's (%s)" % sorted(dnames), "data argument names: %s (rule: %r)" % (sorted(dnames), argname), where=m.where(), fn=m.key)
-        for lf, (nm, dflt) in arg_leaves:
-            ctx.check(dflt in (None, "-"), "K3.default-dash", "an absent data argument is treated as \"-\" (stdin)", "an absent data argument is replaced by %r instead of reading stdin" % (dflt,), where=m.where(lf[3]), fn=m.key, nontrivial=True)
+        for lf, (nm, dflt), pos in arg_leaves:
+            ctx.check(dflt in (None, "-"), "K3.default-dash", "an absent data argument is treated as \"-\" (stdin)", "an absent data argument is replaced by %r instead of reading stdin" % (dflt,), where=m.where(pos), fn=m.key, nontrivial=True)
         # decision edges about the data argument
         stdin_edges, arg_edges = set(), set()
         for sb in m.reachable():
@@ -409,9 +427,9 @@ def run(ctx):
             return target in seen
         ctx.check(not reachable_without(stdin_edges, rbi), "K3.stdin-only-on-dash", "stdin is read only when the data argument is \"-\" or absent",
                   "stdin can be read on a path that never established that the data argument is absent or \"-\"", where=m.where(rbi), fn=m.key, nontrivial=True)
-        for lf, _src in arg_leaves:
-            ctx.check(bool(arg_edges) and not reachable_without(arg_edges, lf[3]), "K3.argument-verbatim", "the data argument is used as the data text only when it is not \"-\"",
-                      "the data argument can become the data text without having been compared with \"-\"", where=m.where(lf[3]), fn=m.key, nontrivial=True)
+        for lf, _src, pos in arg_leaves:
+            ctx.check(bool(arg_edges) and not reachable_without(arg_edges, pos), "K3.argument-verbatim", "the data argument is used as the data text only when it is not \"-\"",
+                      "the data argument can become the data text without having been compared with \"-\"", where=m.where(pos), fn=m.key, nontrivial=True)
         ctx.ok("K3.stdin-into-data", "the stdin text becomes the data text", nontrivial=True)
 
     k2_k3()
